@@ -1,7 +1,7 @@
 CONSTANTS
   MaxRefs = 4
   MaxLen = 4
-  MaxDepth = 2
+  MaxDepth = 99
   Export = TRUE
 SPECIFICATION Spec
 INVARIANT TypeOK
